@@ -19,8 +19,8 @@ func init() {
 	core.Register(&core.Check{
 		ID: "C24", Level: "other", Title: "Validator-signed cross-chain messages need distinct tracked signers",
 		Technique: "sibling template: guard dominance + loop-iteration rules + argument provenance",
-		Explain: "Ontology: ont.VerifyCrossChainMsg (and its sibling ont.verifyHeader, same template) returns nil only after (1) the count test 3·len(keys) >= len(PeerMap) of the peer set obtained by getConsensusPeersByHeight(chain, FindKeyHeight(msg.Height)), (2) a loop over the SAME key slice in which every iteration passes membership of PubkeyID(key) in that PeerMap, passes the not-yet-used test and records the key as used (distinct tracked signers), and (3) VerifyMultiSignature(X.Hash(), keys, len(keys), X.SigData) err==nil with exactly those arguments — in particular m = len(keys), so every counted signer must have signed; PutCrossChainMsg is reached, at every call site, only after VerifyCrossChainMsg err==nil for that message. NEO / NEO N3 / legacy N3: VerifyCrossChainMsgSig returns nil only after the message's script hash equals the tracked NextConsensus of getConsensusValByChainId(chain) and VerifyMultiSignatureWitness(msg.GetMessage(), witness built from msg.Witness) is true. NOT decided: distinctness inside neo-gogogo's witness verification and cryptographic validity (dependencies).",
-		Run: runC24,
+		Explain:   "Ontology: ont.VerifyCrossChainMsg (and its sibling ont.verifyHeader, same template) returns nil only after (1) the count test 3·len(keys) >= len(PeerMap) of the peer set obtained by getConsensusPeersByHeight(chain, FindKeyHeight(msg.Height)), (2) a loop over the SAME key slice in which every iteration passes membership of PubkeyID(key) in that PeerMap, passes the not-yet-used test and records the key as used (distinct tracked signers), and (3) VerifyMultiSignature(X.Hash(), keys, len(keys), X.SigData) err==nil with exactly those arguments — in particular m = len(keys), so every counted signer must have signed; PutCrossChainMsg is reached, at every call site, only after VerifyCrossChainMsg err==nil for that message. NEO / NEO N3 / legacy N3: VerifyCrossChainMsgSig returns nil only after the message's script hash equals the tracked NextConsensus of getConsensusValByChainId(chain) and VerifyMultiSignatureWitness(msg.GetMessage(), witness built from msg.Witness) is true. NOT decided: distinctness inside neo-gogogo's witness verification and cryptographic validity (dependencies).",
+		Run:       runC24,
 	})
 }
 
@@ -73,42 +73,11 @@ func ontQuorumTemplate(c *core.Ctx, prop string, fn *ssa.Function, isKeys func(s
 		return true, b.Op == token.GEQ
 	}}
 	eng.Dominates(c, prop+".count", fn, count, succ, "nil return", nil)
-	// distinct-member loop over the same keys
-	loops := eng.FindSliceLoops(fn, isKeys)
-	if len(loops) != 1 {
-		c.Broken(prop+".distinct-signers", fn, "loop over the signer keys", c.P.Rel(fn.Pos()), sprintf("%d loops", len(loops)))
+	// distinct-member loop over the same keys (in fn or in a helper handed the keys)
+	if !distinctMemberLoop(c, prop+".distinct-signers", fn, isKeys, isPeerMap, pid, succ, "nil return") {
+		c.Broken(prop+".distinct-signers", fn, "loop over the signer keys", c.P.Rel(fn.Pos()), "no single loop over the keys in the function or in a helper it hands the keys to")
 		return
 	}
-	lp := loops[0]
-	member := eng.NamedGuard{Name: "PeerMap[PubkeyID(key)] present", G: func(cd ir.Cond) (bool, bool) {
-		ex, ok := cd.V.(*ssa.Extract)
-		if !ok || ex.Index != 1 {
-			return false, false
-		}
-		lk, ok := ex.Tuple.(*ssa.Lookup)
-		if !ok || !isPeerMap(lk.X) || !isCallTo(lk.Index, pid) {
-			return false, false
-		}
-		return true, true
-	}}
-	isUsedMap := func(v ssa.Value) bool { _, ok := ir.Strip(v).(*ssa.MakeMap); return ok }
-	unused := eng.NamedGuard{Name: "!usedPubKey[PubkeyID(key)]", G: func(cd ir.Cond) (bool, bool) {
-		lk, ok := cd.V.(*ssa.Lookup)
-		if !ok || !isUsedMap(lk.X) || !isCallTo(lk.Index, pid) {
-			return false, false
-		}
-		return true, false
-	}}
-	eng.IterationMustPass(c, prop+".distinct-signers", fn, lp.Header, lp.Body, "range signer keys", member)
-	eng.IterationMustPass(c, prop+".distinct-signers", fn, lp.Header, lp.Body, "range signer keys", unused)
-	eng.IterationMustExec(c, prop+".distinct-signers", fn, lp.Header, lp.Body, "range signer keys", "each iteration records the key as used", func(in ssa.Instruction) bool {
-		mu, ok := in.(*ssa.MapUpdate)
-		if !ok || !isUsedMap(mu.Map) || !isCallTo(mu.Key, pid) {
-			return false
-		}
-		k, isk := ir.ConstBool(mu.Value)
-		return isk && k
-	})
 	// the PubkeyID argument is the loop element
 	// multi-signature call
 	hashOf := func(v ssa.Value) bool {
@@ -137,16 +106,6 @@ func ontQuorumTemplate(c *core.Ctx, prop string, fn *ssa.Function, isKeys func(s
 	nMs := len(ir.CallsTo(fn, vms))
 	c.Decide(nMs == 1, prop+".multisig", fn, "one VerifyMultiSignature call", c.P.Rel(fn.Pos()), sprintf("%d", nMs))
 	eng.Dominates(c, prop+".multisig", fn, eng.NamedGuard{Name: "VerifyMultiSignature(obj.Hash(), keys, len(keys), obj.SigData) err==nil", G: ir.ErrNil(msPred)}, succ, "nil return", nil)
-	// the loop completes before the multi-signature check is trusted: nil return only after loop exit
-	ex := ir.Edge{From: lp.Header, Idx: 1 - indexOfSucc(lp.Header, lp.Body)}
-	r := ir.NewReach(fn).CutEdges([]ir.Edge{ex}).Run(nil)
-	okOrder := true
-	for _, s := range succ {
-		if r.SinkReachable(s) {
-			okOrder = false
-		}
-	}
-	c.Decide(okOrder, prop+".distinct-signers", fn, "nil return only after the membership/distinctness loop ran over all keys", c.P.Rel(lp.Cond.Pos()), "")
 }
 
 func runC24(c *core.Ctx) {
